@@ -1,9 +1,136 @@
-(* C17 -- placeholder until the refinement theorem is integrated *)
+(* C17 -- Databases, collections and indexes appear, persist, move, vanish as in MongoDB.
+   Model: Model/Catalog.v (kstep / wstep / wrun); specification: spec_step / spec_run on the
+   abstract catalog; abstraction abs_server.
+   Vocabulary (Proofs/C17Base.v, C17Spec.v, C17Model.v, C17Proofs.v):
+   - wf_s s     : no key occurs twice in the server store nor in any of its database stores, and
+                  every collection store holding documents or indexes is marked created (insert
+                  and create_index do that; Refuted/C17.v (3) shows the clause is needed);
+   - wf_a a     : no key occurs twice in the abstract catalog;
+   - acat_equiv : equal as finite maps (same a_get everywhere, same non-empty databases);
+   No guard is left: c17_reasons is constantly 0, and the former hypotheses c17_guard (no
+   drop_index / drop_indexes, no rename onto the same name with drop_target=True) and
+   c17_self_rename are gone - the library now keeps a collection created by create_index and
+   refuses a rename onto the same name (Refuted/C17.v (1), (2): the former divergences hold now).
+   - coll_view s db c : Some (ids, index names) if the collection exists in the server store s
+                  (cs_created), None otherwise. *)
 From Coq Require Import ZArith List String Bool.
-From Verif Require Import Value Catalog.
+From Verif Require Import Value Catalog C17Base C17Spec C17Model C17Proofs.
 Import ListNotations.
 Open Scope string_scope.
-Example C17_reads_never_create :
+
+Example C17_reads_never_create_example :
   wrun [[]] [(0%nat, KRead "d" "c"); (0%nat, KListCollections "d"); (0%nat, KListDatabases)]
   = [Ok (VArr []); Ok (names_value []); Ok (names_value [])].
 Proof. vm_compute. reflexivity. Qed.
+
+(* 1. one step of the model refines one step of the specification *)
+Theorem C17_refinement : forall (s : sstore) (o : cop),
+  wf_s s = true ->
+  let '(s', r) := kstep s o in
+  let '(a', r') := spec_step (abs_server s) o in
+  wf_s s' = true /\ wf_a a' = true /\ acat_equiv (abs_server s') a' /\ out_eqb r r' = true.
+Proof. exact refinement. Qed.
+Print Assumptions C17_refinement.
+
+(* the specification does not distinguish catalogs that are equal as finite maps *)
+Theorem C17_spec_respects_equiv : forall (a b : acat) (o : cop),
+  wf_a a = true -> wf_a b = true -> acat_equiv a b ->
+  wf_a (fst (spec_step a o)) = true /\ wf_a (fst (spec_step b o)) = true /\
+  acat_equiv (fst (spec_step a o)) (fst (spec_step b o)) /\
+  out_eqb (snd (spec_step a o)) (snd (spec_step b o)) = true.
+Proof. exact spec_step_respects. Qed.
+Print Assumptions C17_spec_respects_equiv.
+
+(* 2. whole histories, any number of servers *)
+Theorem C17_history : forall (n : nat) (ops : list (nat * cop)),
+  list_eqb out_eqb (wrun (repeat [] n) ops) (spec_run (repeat [] n) ops) = true.
+Proof. exact history. Qed.
+Print Assumptions C17_history.
+
+(* 3. corollaries about the model *)
+Theorem C17_reads_never_create : forall (n : nat) (ops : list (nat * cop)),
+  Forall (fun so : nat * cop => is_read (snd so) = true /\ (fst so < n)%nat) ops ->
+  wrun (repeat [] n) ops = map (fun so => empty_answer (snd so)) ops.
+Proof. exact reads_never_create. Qed.
+Print Assumptions C17_reads_never_create.
+
+Theorem C17_create_existing_fails : forall (s : sstore) (db c : string),
+  cs_created (get_coll (get_db s db) c) = true -> is_system c = false ->
+  kstep s (KCreateCollection db c) = (s, Err ECrash).
+Proof. exact create_existing_fails. Qed.
+Print Assumptions C17_create_existing_fails.
+
+Theorem C17_rename_moves : forall (s : sstore) (db c n : string) (dt : bool),
+  wf_s s = true -> valid_name n = true ->
+  cs_created (get_coll (get_db s db) c) = true ->
+  cs_created (get_coll (get_db s db) n) = false ->
+  let s' := fst (kstep s (KRename db c n dt)) in
+  snd (kstep s (KRename db c n dt)) = Ok VNull /\
+  wf_s s' = true /\
+  coll_view s' db n = Some (cs_docs (get_coll (get_db s db) c), cs_idx (get_coll (get_db s db) c)) /\
+  coll_view s' db c = None /\
+  forall db' c', (db' = db /\ (c' = c \/ c' = n)) \/ coll_view s' db' c' = coll_view s db' c'.
+Proof. exact rename_moves. Qed.
+Print Assumptions C17_rename_moves.
+
+Theorem C17_rename_guards : forall (s : sstore) (db c n : string) (dt : bool),
+  wf_s s = true ->
+  cs_created (get_coll (get_db s db) c) = false \/
+  (cs_created (get_coll (get_db s db) n) = true /\ dt = false) \/
+  c = n ->
+  let s' := fst (kstep s (KRename db c n dt)) in
+  (exists e, snd (kstep s (KRename db c n dt)) = Err e) /\
+  wf_s s' = true /\
+  (forall db' c', coll_view s' db' c' = coll_view s db' c') /\
+  acat_equiv (abs_server s') (abs_server s).
+Proof. exact rename_guards. Qed.
+Print Assumptions C17_rename_guards.
+
+Theorem C17_drop_then_reuse : forall (s : sstore) (db c : string) (id : Z),
+  wf_s s = true ->
+  let s1 := fst (kstep s (KDropCollection db c)) in
+  coll_view s1 db c = None /\
+  snd (kstep s1 (KInsert db c id)) = Ok VNull /\
+  coll_view (fst (kstep s1 (KInsert db c id))) db c = Some ([id], []).
+Proof. exact drop_then_reuse. Qed.
+Print Assumptions C17_drop_then_reuse.
+
+(* an existing collection survives the loss of all its indexes, even if it holds no documents
+   and exists through create_index only *)
+Theorem C17_drop_indexes_keeps : forall (s : sstore) (db c : string),
+  wf_s s = true -> cs_created (get_coll (get_db s db) c) = true ->
+  let s' := fst (kstep s (KDropIndexes db c)) in
+  snd (kstep s (KDropIndexes db c)) = Ok VNull /\
+  wf_s s' = true /\
+  coll_view s' db c = Some (cs_docs (get_coll (get_db s db) c), []) /\
+  forall db' c', (db' = db /\ c' = c) \/ coll_view s' db' c' = coll_view s db' c'.
+Proof. exact drop_indexes_keeps. Qed.
+Print Assumptions C17_drop_indexes_keeps.
+
+Theorem C17_create_index_creates : forall (s : sstore) (db c f : string),
+  wf_s s = true ->
+  let s' := fst (kstep s (KCreateIndex db c f)) in
+  wf_s s' = true /\ cs_created (get_coll (get_db s' db) c) = true.
+Proof. exact create_index_creates. Qed.
+Print Assumptions C17_create_index_creates.
+
+Theorem C17_independent_clients_isolated : forall (w : world) (i : nat) (o : cop) (j : nat),
+  j <> i -> nth_error (fst (wstep w i o)) j = nth_error w j.
+Proof. exact independent_clients_isolated. Qed.
+Print Assumptions C17_independent_clients_isolated.
+
+(* clients of the same server work on one store: an operation sees, and leaves, exactly the
+   server's store; its effect depends on nothing else in the world *)
+Theorem C17_shared_store : forall (w : world) (i : nat) (o : cop) (s : sstore),
+  nth_error w i = Some s ->
+  snd (wstep w i o) = snd (kstep s o) /\
+  nth_error (fst (wstep w i o)) i = Some (fst (kstep s o)).
+Proof. exact shared_store. Qed.
+Print Assumptions C17_shared_store.
+
+Theorem C17_shared_store_local : forall (w w' : world) (i : nat) (o : cop),
+  nth_error w i = nth_error w' i ->
+  snd (wstep w i o) = snd (wstep w' i o) /\
+  nth_error (fst (wstep w i o)) i = nth_error (fst (wstep w' i o)) i.
+Proof. exact shared_store_local. Qed.
+Print Assumptions C17_shared_store_local.
